@@ -993,6 +993,12 @@ class Engine:
                     process_delay = process_time - self.global_time
                     full_step = min(full_step, process_delay)
 
+            # the time of the next event, on the precision grid
+            next_time = self.global_time + full_step
+            if self.global_time_precision is not None and \
+                    full_step != math.inf:
+                next_time = round(next_time, self.global_time_precision)
+
             # apply updates based on process times in self.front
             if full_step == math.inf:
                 # no processes ran, jump to next process
@@ -1004,13 +1010,10 @@ class Engine:
                 for quiet in quiet_paths:
                     self.front[quiet] = empty_front(self.global_time)
 
-            elif self.global_time + full_step <= end_time:
+            elif next_time <= end_time:
                 # at least one process ran within the interval
                 # increase the time, apply updates, and continue
-                self.global_time += full_step
-                if self.global_time_precision is not None:
-                    self.global_time = round(
-                        self.global_time, self.global_time_precision)
+                self.global_time = next_time
 
                 # advance all quiet processes to current time
                 for quiet in quiet_paths:
